@@ -274,6 +274,80 @@ impl W {
         i
     }
 
+    // ------------------------------------------------------------------ swap orders
+    /// market swap order: `amount` of `token_in` along `path` (market accounts, the last one is the order's market) into `token_out`
+    #[allow(clippy::too_many_arguments)]
+    pub fn create_swap(&self, db: &mut Db, path: &[&MarketKeys], owner: Pubkey, nonce: [u8; 32], token_in: Pubkey, token_out: Pubkey, amount: u64, min_out: u128) -> std::result::Result<(), TxError> {
+        let order = self.order_pda(&owner, &nonce);
+        let m = path.last().expect("swap path");
+        for mint in [token_in, token_out] {
+            self.ensure_ata(db, &order, &mint);
+        }
+        let mut params = Self::order_params(OrderKind::MarketSwap, Side { is_long: true, collateral_long: true }, amount, 0);
+        params.swap_path_length = path.len() as u8;
+        params.min_output = Some(min_out);
+        let accounts = gmsol_store::accounts::CreateOrderV2 {
+            owner, receiver: owner, store: self.store, market: m.market, user: self.user_pda(&owner), order, position: None,
+            initial_collateral_token: Some(token_in), final_output_token: token_out, long_token: None, short_token: None,
+            initial_collateral_token_escrow: Some(ata(&order, &token_in)), final_output_token_escrow: Some(ata(&order, &token_out)), long_token_escrow: None, short_token_escrow: None,
+            initial_collateral_token_source: Some(ata(&owner, &token_in)),
+            system_program: sys(), token_program: spl_token::ID, associated_token_program: spl_associated_token_account::ID,
+            callback_authority: None, callback_program: None, callback_shared_data_account: None, callback_partitioned_data_account: None,
+            event_authority: self.event_authority, program: self.pid,
+        };
+        let mut i = ix(self.pid, accounts, gmsol_store::instruction::CreateOrderV2 { nonce, params, callback_version: None });
+        i.accounts.extend(path.iter().map(|p| meta(p.market, false, false)));
+        process(db, &i, &[owner])
+    }
+
+    #[allow(clippy::too_many_arguments)]
+    pub fn execute_swap(&self, db: &mut Db, path: &[&MarketKeys], owner: Pubkey, nonce: [u8; 32], token_in: Pubkey, token_out: Pubkey, by: Pubkey, throw: bool) -> std::result::Result<(), TxError> {
+        let order = self.order_pda(&owner, &nonce);
+        let m = path.last().expect("swap path");
+        let (ts, _) = crate::svm::clock();
+        let accounts = gmsol_store::accounts::ExecuteIncreaseOrSwapOrderV2 {
+            authority: by, store: self.store, token_map: self.token_map, oracle: self.oracle, market: m.market, owner, user: self.user_pda(&owner), order,
+            position: None, event: None,
+            initial_collateral_token: Some(token_in), final_output_token: Some(token_out), long_token: None, short_token: None,
+            initial_collateral_token_escrow: Some(ata(&order, &token_in)), final_output_token_escrow: Some(ata(&order, &token_out)), long_token_escrow: None, short_token_escrow: None,
+            initial_collateral_token_vault: Some(self.vault(&token_in)), final_output_token_vault: Some(self.vault(&token_out)), long_token_vault: None, short_token_vault: None,
+            token_program: spl_token::ID, system_program: sys(),
+            callback_authority: None, callback_program: None, callback_shared_data_account: None, callback_partitioned_data_account: None,
+            event_authority: self.event_authority, program: self.pid,
+        };
+        let mut i = ix(self.pid, accounts, gmsol_store::instruction::ExecuteIncreaseOrSwapOrderV2 { recent_timestamp: ts, execution_fee: 5_000, throw_on_execution_error: throw });
+        let mut toks: Vec<Pubkey> = path.iter().flat_map(|p| [p.index, p.long, p.short]).collect();
+        toks.sort();
+        toks.dedup();
+        i.accounts.extend(toks.into_iter().map(|t| meta(if t == self.a { self.feed_a } else { self.feed_b }, false, false)));
+        // swap markets: unique, excluding the order's own market
+        let mut seen = vec![m.market_token];
+        for p in path {
+            if !seen.contains(&p.market_token) {
+                seen.push(p.market_token);
+                i.accounts.push(meta(p.market, false, true));
+            }
+        }
+        process(db, &i, &[by])
+    }
+
+    pub fn close_swap(&self, db: &mut Db, owner: Pubkey, nonce: [u8; 32], token_in: Pubkey, token_out: Pubkey, by: Pubkey) -> std::result::Result<(), TxError> {
+        let order = self.order_pda(&owner, &nonce);
+        for mint in [token_in, token_out] {
+            self.ensure_ata(db, &owner, &mint);
+        }
+        let accounts = gmsol_store::accounts::CloseOrderV2 {
+            executor: by, store: self.store, store_wallet: self.store_wallet, owner, receiver: owner, rent_receiver: owner, user: self.user_pda(&owner), referrer_user: None, order,
+            initial_collateral_token: Some(token_in), final_output_token: Some(token_out), long_token: None, short_token: None,
+            initial_collateral_token_escrow: Some(ata(&order, &token_in)), final_output_token_escrow: Some(ata(&order, &token_out)), long_token_escrow: None, short_token_escrow: None,
+            initial_collateral_token_ata: Some(ata(&owner, &token_in)), final_output_token_ata: Some(ata(&owner, &token_out)), long_token_ata: None, short_token_ata: None,
+            system_program: sys(), token_program: spl_token::ID, associated_token_program: spl_associated_token_account::ID,
+            callback_authority: None, callback_program: None, callback_shared_data_account: None, callback_partitioned_data_account: None,
+            event_authority: self.event_authority, program: self.pid,
+        };
+        process(db, &ix(self.pid, accounts, gmsol_store::instruction::CloseOrderV2 { reason: "done".into() }), &[by])
+    }
+
     // ------------------------------------------------------------------ shifts
     pub fn shift_pda(&self, owner: &Pubkey, nonce: &[u8; 32]) -> Pubkey {
         Pubkey::find_program_address(&[gmsol_store::states::Shift::SEED, self.store.as_ref(), owner.as_ref(), nonce], &self.pid).0
